@@ -10,7 +10,7 @@ use std::cell::RefCell;
 pub use crate::parallel::ConcurrentNodeIds;
 pub use crate::spaces::verif_kernels as kernels;
 
-type Hook = Box<dyn FnMut(&'static str)>;
+type Hook = Box<dyn FnMut(&'static str, u64)>;
 
 thread_local! {
     static HOOK: RefCell<Option<Hook>> = const { RefCell::new(None) };
@@ -24,10 +24,16 @@ pub fn set_hook(hook: Option<Hook>) {
 /// A yield point: calls the callback of the current thread, if any.
 #[inline]
 pub fn enter(label: &'static str) {
+    enter_with(label, 0)
+}
+
+/// A yield point carrying one number (a tree root, a task count).
+#[inline]
+pub fn enter_with(label: &'static str, value: u64) {
     HOOK.with(|h| {
         if let Ok(mut h) = h.try_borrow_mut() {
             if let Some(h) = h.as_mut() {
-                h(label)
+                h(label, value)
             }
         }
     });
